@@ -23,6 +23,8 @@ PROP = {
         "Sonic.Model.Loop.step_linv",
     ],
     "runs": LOOP_RUNS,
+    # owners of in-flight operations stay registered (and so alive) until the last operation completes: collector trials of C13
+    "direct": [{"component": "fds", "keys": ["fds.gc.*"], "timeout": 900}],
     "keys": ["callback-twice", "callback-after-close", "callback-of-starting-op-outside-its-call", "deferred-callback-outside-poll",
              "cancelled-result-without-cancel", "cancel-completed-with-success", "cancel-left-operation-in-flight",
              "operation-never-completed-although-ready", "callback-of-unknown-op", "handler-nesting-broken", "return-without-call",
